@@ -221,6 +221,15 @@ pub fn run(c: &Case, rep: &mut Report) {
                     }
                 }
                 None => {
+                    // function removed: an end given as an address is an address of removed code like the start is; it
+                    // must not come out pointing at code that is still there
+                    if !sp.high_is_offset {
+                        if let Some(h) = sp.high_pc {
+                            if h != TOMBSTONE && h != 0 && extents.iter().any(|(_, s, e)| h >= *s && h <= *e) {
+                                rep.violation(c, "C10/end-address-of-removed-function-points-at-live-code", &format!("{}: subprogram {} (function removed) has low_pc {:#x} and an end address {:#x}, which lies in the emitted code", label, sp.name, low, h), &blob);
+                            }
+                        }
+                    }
                     // function removed: the range must not cover live code
                     if low != TOMBSTONE && low != 0 {
                         let covers = extents.iter().any(|(i, _, _)| dout.funcs[*i as usize].body.as_ref().map(|b| b.ops.iter().any(|o| { let s = (o.offset - out_code) as u64; s >= low && s < high })).unwrap_or(false));
